@@ -39,6 +39,8 @@ class Model:
         self.burst_sizes = []
         self.reads = []  # sizes of tty reads during the current request
         self.request_no = 0
+        self.ts_completed = 0
+        self.ts_marks = []  # (request number, selects completed) at the moment a thread-safe callback finished
 
     def arrived(self, data):
         self.ref_bytes.extend(data)
@@ -52,6 +54,69 @@ class Model:
         return len(self.ref_bytes) - len(self.returned)
 
 
+class SteppedCall:
+    """Runs a thread-safe trigger callback in a real second thread under sys.settrace, handing control back and forth with a baton,
+    so that the callback can be *preempted between two of its source lines* (the explorer decides where; at most once per call).
+    While the callback thread runs the main thread waits, and vice versa: there is never real parallelism."""
+
+    def __init__(self, fn, kwargs, chooser, label):
+        import threading
+
+        self.fn, self.kwargs, self.chooser, self.label = fn, kwargs, chooser, label
+        self.code = fn.__code__
+        self.to_main = threading.Event()
+        self.to_thread = threading.Event()
+        self.done = False
+        self.paused = False
+        self.preempted_once = False
+        self.error = None
+        self.lines = 0
+        self.thread = threading.Thread(target=self._run, daemon=True)
+
+    def _run(self):
+        import sys
+
+        def local(frame, event, arg):
+            if event == "line" and not self.preempted_once:
+                self.lines += 1
+                c = self.chooser.choose(["callback_continues", "callback_preempted_before_line_%d" % self.lines], [0, 1])
+                if c == 1:
+                    self.preempted_once = True
+                    self.paused = True
+                    self.to_main.set()
+                    self.to_thread.wait()
+                    self.to_thread.clear()
+                    self.paused = False
+            return local
+
+        def tracer(frame, event, arg):
+            if event == "call" and frame.f_code is self.code:
+                return local
+            return None
+
+        sys.settrace(tracer)
+        try:
+            self.fn(**self.kwargs)
+        except BaseException as ex:  # noqa
+            self.error = ex
+        finally:
+            sys.settrace(None)
+            self.done = True
+            self.to_main.set()
+
+    def start(self):
+        self.thread.start()
+        self.to_main.wait()
+        self.to_main.clear()
+
+    def resume(self):
+        self.to_thread.set()
+        self.to_main.wait()
+        self.to_main.clear()
+        if self.done:
+            self.thread.join()
+
+
 class Env:
     def __init__(self, script, model):
         self.script = list(script)
@@ -63,6 +128,11 @@ class Env:
         self.cbs = {}
         self.pc = 0
         self.callback_failures = []
+        self.paused_calls = []
+        self.chooser = None
+        # the callback runs in a stepped thread and can be preempted before any of its lines (including the os.write line), which
+        # subsumes "the write lands later than the append"
+        self.allow_write_deferral = False
 
     def bytes_read(self, data):
         self.model.fd_read += len(data)
@@ -80,6 +150,7 @@ class Env:
 
     def enabled_early(self):
         out = [("deferred_write", ("deferred", j)) for j in range(len(self.deferred))][:1]
+        out += [("deferred_write", ("resume", j)) for j in range(len(self.paused_calls))][:1]
         i = self._next_env()
         if i is not None:
             out.append((self.script[i][0], ("script", i)))
@@ -105,6 +176,20 @@ class Env:
             rfd, data = self.deferred.pop(ev[1])
             kernel.raw_write(rfd, data)
             return
+        if ev[0] == "resume":
+            call = self.paused_calls.pop(ev[1])
+            self.in_threadsafe_callback = True
+            try:
+                call.resume()
+            finally:
+                self.in_threadsafe_callback = False
+            if call.paused:
+                raise vk.HarnessError("callback paused twice")
+            if call.error is not None:
+                raise call.error
+            self.model.ts_completed += 1
+            self.model.ts_marks.append((call.label, self.model.request_no if kernel.in_request else -1, kernel.selects_done))
+            return
         i = ev[1]
         it = self.script[i]
         self.done[i] = True
@@ -121,12 +206,23 @@ class Env:
             m.plain.append(it[1])
             self.cbs["plain"](tag=it[1])
         elif kind == "ts":
+            # one other thread fires the callbacks: its earlier call finishes before its next one starts
+            while self.paused_calls:
+                self._deliver(("resume", 0), kernel)
             m.ts.append(it[1])
             self.in_threadsafe_callback = True
             try:
-                self.cbs["ts"](tag=it[1])
+                call = SteppedCall(self.cbs["ts"], {"tag": it[1]}, self.chooser, it[1])
+                call.start()
             finally:
                 self.in_threadsafe_callback = False
+            if call.paused:
+                self.paused_calls.append(call)  # the other thread was preempted inside its callback
+            else:
+                if call.error is not None:
+                    raise call.error
+                m.ts_completed += 1
+                m.ts_marks.append((it[1], m.request_no if kernel.in_request else -1, kernel.selects_done))
         elif kind == "sched":
             # remembered with the moment it was scheduled: (request number, selects completed) - an event scheduled after the
             # request's last wait has returned races with the request's decision and is exempt from the ordering clause
@@ -188,6 +284,7 @@ def run_scenario(scn, chooser):
     Tag, TsTag, Sched = _EV
     model = Model()
     env = Env(scn["script"], model)
+    env.chooser = chooser
     kernel = vk.Kernel(chooser, env)
     vk.install(kernel)
     fails = []
@@ -204,7 +301,8 @@ def run_scenario(scn, chooser):
             m.reads = []
             m.request_no += 1
             start = kernel.clock
-            deliverable = bool(m.plain or m.ts or m.sigints or m.pending_bytes() or any(x[0] < start for x in m.sched))
+            # a thread-safe event is deliverable once its callback has appended it (the callback may be preempted before that)
+            deliverable = bool(m.plain or inp.queued_interrupting_events or m.sigints or m.pending_bytes() or any(x[0] < start for x in m.sched))
             sched_pending_start = bool(m.sched)
             kernel.in_request = True
             try:
@@ -242,6 +340,8 @@ def run_scenario(scn, chooser):
                     fails.append(("C08:none_from_untimed_request", "send(None) returned None"))
                 elif not sched_pending_start and not m.sched and end - start < timeout - 1e-4:
                     fails.append(("C08:none_before_timeout", "request(%r) returned None after %.6f s" % (timeout, end - start)))
+                elif inp.queued_interrupting_events and not env.paused_calls and any(tg in m.ts and rn == m.request_no and sd < kernel.selects_done for tg, rn, sd in m.ts_marks):
+                    fails.append(("C08:request_slept_through_a_completed_threadsafe_callback", "request(%r) returned None although a thread-safe callback completed (event appended, wake-up due) before its last wait returned; queue %r" % (timeout, inp.queued_interrupting_events)))
                 return None
             if isinstance(r, bytes):
                 obs.append(("key", r))
@@ -324,6 +424,8 @@ def run_scenario(scn, chooser):
             elif not env.done[i]:
                 env.deliver(("script", i), kernel)
         if not stopped and not fails:
+            while env.paused_calls:
+                env.deliver(("resume", 0), kernel)
             while env.deferred:
                 env.deliver(("deferred", 0), kernel)
             for phase in ("drain", "late"):
@@ -355,6 +457,11 @@ def run_scenario(scn, chooser):
                 fails.append((sig_, "keypress %d is %r, expected %r (%d keypresses, %d expected)" % (k, keys_out[k : k + 2], scn["units"][k : k + 2], len(keys_out), len(scn["units"]))))
             if not stopped and (kernel.fds[0]["flags"] & vk.O_NONBLOCK):
                 fails.append(("C08:stream_left_nonblocking", ""))
+        while env.paused_calls:
+            try:
+                env.deliver(("resume", 0), kernel)
+            except Exception:  # noqa
+                break
         fails.extend(env.callback_failures)
         try:
             inp.__exit__(None, None, None)
@@ -466,6 +573,10 @@ def family_large(thorough):
     for lead in (0, 1, 2, 3):
         burst = b"a" * lead + b"\x1b[A" * 342
         yield {"paste_threshold": 8, "sigint_event": False, "script": [("bytes", burst), ("req", 0), ("req", 0)], "family": "large_burst", "units": [b"a"] * lead + [b"\x1b[A"] * 342}
+    # a paste larger than 64 KiB (more than 64 reads), a long escape sequence lying across offset 65 536
+    for lead in range(0, 7):  # every alignment of the 7-byte cycle against whatever boundary the implementation has
+        units = [b"a"] * lead + [b"\x1b[1;5D", b"x"] * 11000
+        yield {"paste_threshold": 8, "sigint_event": False, "script": [("bytes", b"".join(units)), ("req", 0), ("req", 0)], "family": "large_burst", "units": units}
     # escape sequences and characters straddling every 1 024-byte read boundary of a multi-kilobyte paste
     for lead in range(0, 4):
         units = [b"a"] * lead + [b"\x1b[A", d, b"\x1b[15~"] * 400
